@@ -338,6 +338,8 @@ _RW_FIXED = [
     {"kind": "rect", "w": 100.0, "h": 60.0, "spacing": 10.0, "rot_deg": 0.0, "shift": [10.0, 10.0], "two_zones": "far-first", "check_translation": False},  # a row crosses two zones, listed far zone first
     {"kind": "rect", "w": 100.0, "h": 60.0, "spacing": 10.0, "rot_deg": 15.0, "shift": [10.0, 10.0], "two_zones": "near-first", "ints": True, "check_translation": False},
     {"kind": "rect", "spacing": 12.5, "rot_deg": 0.0, "shift": [33.3, 0.0], "w": 17.0, "h": 102.0, "ints": True, "two_zones": "far-first", "check_translation": False},  # recorded finding: borehole outside a narrow lot with two zones
+    {"kind": "pts", "spacing": 5.0, "rot_deg": 15.0, "shift": [0.0, 25.0], "pts": [[0.0, 29.945353545803396], [38.376893620641965, 0.5235990886550681], [70.72003782814971, 0.0]],
+     "sweep": [15.0, -45.0, 90.0], "zone": 0.5},  # recorded finding (thorough tier): sweep over a thin triangle with a zone, borehole 0.12 m outside
 ]
 
 
